@@ -337,6 +337,59 @@ def main(rep, tier, only):
         except sx.Unsupported as e:
             why = "outside the interpreted fragment: %s" % e
         (rep.fail if why else rep.ok)("RANGE-G", key, F.primary_site(fn), F.describe(fn)[:160], **({"why": why} if why else {"how": "min_less_sup ? sup-min : null"}))
+    # ---- PROV (resize, value category): an LVALUE source grid is only copied from -- in the instantiations whose Grid parameter is
+    # an lvalue reference no element of the source is handed to std::move (kept cells go through move_if_rvalue<Grid>)
+    seen_mv = set()
+    for fn in db.fns(G + "resize"):
+        ta = fn.get("targs") or []
+        if not ta or not ta[0].rstrip().endswith("&") or ta[0].rstrip().endswith("&&"):
+            continue
+        key = "resize|lvalue source|N=%s%s" % (PC.dims_of(fn), "|const" if ta[0].startswith("const ") else "")
+        if key in seen_mv:
+            continue
+        seen_mv.add(key)
+        u = fn["_unit"]
+        mv = [n for n in F.walk(fn.get("body"), into_lambdas=True) if n.get("k") == "call" and (T.callee_qn(u, n) or "") == "std::move"]
+        (rep.fail if mv else rep.ok)("PROV", key, u.loc(mv[0]["loc"]) if mv else F.primary_site(fn), F.describe(fn)[:160],
+                                     **({"why": "resize of an lvalue grid moves from it (std::move(%s)): the caller's grid loses the cells that were kept" % T.show(T.norm(u, mv[0]["args"][0]))[:80]} if mv else {"how": "no std::move in the lvalue instantiation"}))
+    # ---- RANGE-G (who may subtract): the unsigned difference sup - min of a (min, sup) pair is formed in range_dim only, where
+    # min_less_sup guards it; every other function of the grid headers reaches it through range_dim (range_size =
+    # contents(range_dim(min, sup)))
+    seen_sub = set()
+    for fn in db.functions:
+        u = fn["_unit"]
+        name = F.fn_name(F.top_function(fn))
+        if not name.startswith(G) or not u.file_of(fn["primary"]).startswith("libs/") or name == G + "range_dim":
+            continue
+        for n in F.walk(fn.get("body"), into_lambdas=False):
+            if n.get("k") == "call" and n.get("opcall") == "-" and (T.callee_qn(u, n) or "").startswith("fcppt::math::vector::operator-"):
+                ops_ = ([n["recv"]] if n.get("recv") is not None else []) + list(n.get("args", []))
+                tys = [F.strip_targs(u.ty((T.unwrap(u, (T.unwrap(u, o_) or {}).get("recv")) or {}).get("t")) or "") if (T.unwrap(u, o_) or {}).get("k") == "call" else "" for o_ in ops_]
+                txt = [T.show(T.norm(u, o_)) for o_ in ops_]
+                if len(ops_) == 2 and txt[0].endswith(".get()") and txt[1].endswith(".get()"):
+                    def is_kind(o_, kind):
+                        r_ = T.unwrap(u, (T.unwrap(u, o_) or {}).get("recv"))
+                        return r_ is not None and kind in (u.ty(r_.get("t")) or "")
+                    if is_kind(ops_[0], "grid::sup") and is_kind(ops_[1], "grid::min"):
+                        key = "sup-min@%s" % name.replace(G, "")
+                        if key in seen_sub:
+                            continue
+                        seen_sub.add(key)
+                        rep.fail("RANGE-G", key, u.loc(n["loc"]), F.describe(fn)[:160],
+                                 why="%s forms sup - min itself (%s - %s): only range_dim may, under its min_less_sup guard; an inverted range wraps in unsigned arithmetic" % (name.replace(G, ""), txt[0], txt[1]))
+    for fn in db.fns(G + "range_size"):
+        k = PC.dims_of(fn)
+        key = "range_size|N=%s" % k
+        if key in seen_sub:
+            continue
+        seen_sub.add(key)
+        u = fn["_unit"]
+        t = T.return_term(u, fn)
+        ts = re.sub(r"\s", "", T.show(t)) if t is not None else ""
+        ts = re.sub(r"fcppt::strong_typedef\{(r_a[01])\}", r"\1", ts)      # by-value copies of the two strong typedefs
+        ok = ts == "contents(range_dim(r_a0,r_a1))"
+        (rep.ok if ok else rep.fail)("RANGE-G", key, F.primary_site(fn), F.describe(fn)[:160],
+                                     **({"how": "contents(range_dim(min, sup))"} if ok else {"why": "range_size is %s, expected contents(range_dim(min, sup)): the size must be that of the guarded dimension" % ts}))
     # ---- STRIDE
     seen = set()
     for fn in db.functions:
